@@ -48,14 +48,16 @@ __CPROVER_ensures(!__CPROVER_return_value ==> *out == __CPROVER_old(*out))
 /* ---- K1 validate: true <=> lo <= val <= hi (always true for an unbounded option); exactly one diagnostic on false ---- */
 #define S_WF(o) (__CPROVER_is_fresh((o), SIZEOF_Option_signed) && (Option_signed_m_bounded(o) ==> Option_signed_m_lo(o) <= Option_signed_m_hi(o)))
 #define U_WF(o) (__CPROVER_is_fresh((o), SIZEOF_Option_unsigned) && (Option_unsigned_m_bounded(o) ==> Option_unsigned_m_lo(o) <= Option_unsigned_m_hi(o)))
+/* callers hand over values that are representable in the option's value type (read_number checks that first; proved there) */
 _Bool validate_signed_contract(struct Option_signed *o, long v)
-__CPROVER_requires(S_WF(o))
+__CPROVER_requires(S_WF(o) && INT_MIN_L <= v && v <= INT_MAX_L)
 __CPROVER_assigns(g_warn_n)
 __CPROVER_ensures(__CPROVER_return_value == (!Option_signed_m_bounded(o) || ((long)Option_signed_m_lo(o) <= v && v <= (long)Option_signed_m_hi(o))))
 __CPROVER_ensures(g_warn_n == __CPROVER_old(g_warn_n) + (__CPROVER_return_value ? 0 : 1))
 ;
+/* registry fact (ASSUMED): every documented bound of an unsigned option fits in int (the largest in options.h is 10000) */
 _Bool validate_unsigned_contract(struct Option_unsigned *o, long v)
-__CPROVER_requires(U_WF(o))
+__CPROVER_requires(U_WF(o) && 0 <= v && v <= UINT_MAX_L && (Option_unsigned_m_bounded(o) ==> (long)Option_unsigned_m_hi(o) <= INT_MAX_L))
 __CPROVER_assigns(g_warn_n)
 __CPROVER_ensures(__CPROVER_return_value == (!Option_unsigned_m_bounded(o) || ((long)Option_unsigned_m_lo(o) <= v && v <= (long)Option_unsigned_m_hi(o))))
 __CPROVER_ensures(g_warn_n == __CPROVER_old(g_warn_n) + (__CPROVER_return_value ? 0 : 1))
